@@ -4,7 +4,7 @@ from .core import Callee, walk, show
 from .view import FnView, pnorm, OPTION
 from .pat import m, ANY, V, K, Par, C, F, E, P, B, Phi, members
 from .da import Sites, endswith, anykey
-from .search import switches_on, opt_arms, bool_arms, is_const, GET_UNCHECKED
+from .search import switches_on, opt_arms, bool_arms, is_const, GET_UNCHECKED, pull_switches
 from .roles import reachable_bodies
 
 ITER_NEXT = "core::iter::Iterator::next"
@@ -75,10 +75,10 @@ def _classify_loop(ctx, lib, b, S, comp, trans):
     #     path around the loop passes that pull
     pulls = [s for s in S.calls if s["vw"].body is b and s["bb"] in comp and core.callee_base(s["key"]) == ITER_NEXT]
     for p in pulls:
-        sw = switches_on(S.root, lambda d: d[0] == "discr" and d[1][0] == "call" and d[1][3] == (b.path, p["bb"]))
+        sw = pull_switches(S.root, (b.path, p["bb"]))
         if len(sw) != 1:
             continue
-        some, none = opt_arms(sw[0][1])
+        _, some, none = sw[0]
         leaves = none not in comp or not (b.reach(none) & set([p["bb"]]))
         # no cycle inside comp that avoids the pull block
         inner = any(x in b.reach(s, avoid_blocks=[p["bb"]]) for x in comp if x != p["bb"] for s in b.succ(x) if s in comp and s == x) or \
